@@ -68,6 +68,9 @@ func c11Run(in c11In) c11Out {
 	case "error":
 		n2.Chan = &vk.Chan{Source: "h1", IO: true, SQL: false, SQLErrno: 1062, Sticky: true}
 		n2.StickySQLErrno = 1062
+	case "ioerror":
+		// the receiver thread stopped on a fatal error (the master purged the binary logs this host needs), the applier is fine
+		n2.Chan = &vk.Chan{Source: "h1", IO: false, SQL: true, IOErrno: 1236}
 	}
 	n2.Retrieved = n2.Executed
 	w.AddNode(n2)
@@ -213,7 +216,7 @@ func c11Monitor(m *vk.Meta, in c11In, out c11Out) {
 
 func c11Gen(o *vk.Out) c11In {
 	r := o.Rng
-	in := c11In{Rel: []string{"behind", "equal", "ahead", "diverged"}[r.Intn(4)], Repl: []string{"none", "running", "running", "stopped", "error"}[r.Intn(5)],
+	in := c11In{Rel: []string{"behind", "equal", "ahead", "diverged"}[r.Intn(4)], Repl: []string{"none", "running", "running", "stopped", "error", "ioerror"}[r.Intn(6)],
 		RO: r.Intn(3) != 0, Stuck: []int{0, 0, 0, 2}[r.Intn(4)], Resetup: r.Intn(8) == 0, Marked: r.Intn(8) != 0,
 		Master: []string{"h1", "h1", "h1", "h1", "h2", "", "h9"}[r.Intn(7)], Ticks: 1 + r.Intn(4), Gap: []int{5, 31, 61}[r.Intn(3)], FaultAt: 0}
 	if in.Ticks > 1 && r.Intn(3) == 0 {
@@ -267,7 +270,7 @@ func TestVerifC11(t *testing.T) {
 	}
 	// the systematic part: every relation x replication state x read-only x stuck x resetup file x mark x master record
 	for _, rel := range []string{"behind", "equal", "ahead", "diverged"} {
-		for _, repl := range []string{"none", "running", "stopped", "error"} {
+		for _, repl := range []string{"none", "running", "stopped", "error", "ioerror"} {
 			for _, ro := range []bool{true, false} {
 				for _, stuck := range []int{0, 2} {
 					for _, master := range []string{"h1", "h2", "", "h9"} {
